@@ -385,14 +385,17 @@ func (w *Workceptor) scanForUnits() {
 
 func (w *Workceptor) findUnit(unitID string) (WorkUnit, error) {
 	w.activeUnitsLock.RLock()
-	defer w.activeUnitsLock.RUnlock()
 	unit, ok := w.activeUnits[unitID]
+	w.activeUnitsLock.RUnlock()
 	if ok {
 		return unit, nil
 	}
-	// if not in active units, rescan work unit dir and recheck
+	// if not in active units, rescan work unit dir and recheck. scanForUnit takes the write lock to
+	// register a unit it finds on disk, so the read lock must not be held across the call.
 	w.scanForUnit(unitID)
+	w.activeUnitsLock.RLock()
 	unit, ok = w.activeUnits[unitID]
+	w.activeUnitsLock.RUnlock()
 	if !ok {
 		return nil, fmt.Errorf("unknown work unit %s", unitID)
 	}
